@@ -300,12 +300,50 @@ def rule_identity(res, rid, m):
 # ---------------------------------------------------------------------------- C08
 
 def rule_flag_table(res, rid, m):
-    """C08-R1: decision structure of the segment-flag builder, read off its CFG paths."""
+    """C08-R1: decision structure of the segment-flag builder, read off its CFG paths with
+    its parameters bound to the arguments of its single call in the segmentation loop:
+    not segmented -> unsegmented; segmented and segment index == 0 -> first; segmented,
+    later, position + chunk == total -> last; else intermediary."""
     f = m.flag_builder
+    pp = m.putPacket
     en = {e["value"]: e["name"] for e in m.fb.enum(MH + "::SegmentType")["enumerators"]}
-    pbool = [p["decl"] for p in f.params if p["t"].get("k") == "bool"]
-    if len(pbool) != 1:
-        raise Broken("flag builder: expected one bool parameter")
+    cs = [c for c in pp.calls() if m.calls_fn(c, f)]
+    if len(cs) != 1:
+        raise Broken("putPacket: expected one call of the flag builder")
+    call = cs[0]
+    bind = {p["decl"]: call["args"][i] for i, p in enumerate(f.params)}
+    # roles of the caller's values
+    fit = [v["decl"] for n in pp.nodes() if n.get("k") == "decl" for v in n.get("vars", []) if isinstance(v.get("init"), dict) and
+           any(m.calls_fn(x, m.fit_checker) for x in walk(v["init"]) if x.get("k") == "call")]
+    cond = m.loop_stmt["cond"]
+    posv = [d for d in reads(cond) if d.startswith("l")]
+    if len(fit) != 1 or len(posv) != 1:
+        raise Broken("putPacket: cannot bind the segmented flag / payload position")
+    fit, posv = fit[0], posv[0]
+    cps = segmentation_copy(m)
+    if len(cps) != 1:
+        raise Broken("putPacket: expected one payload copy")
+    chunk = strip_all_casts(cps[0][3]).get("decl")
+    idxv = [lvalue_root(x["e"]) for x in walk(m.loop_stmt.get("body", {})) if x.get("k") == "un" and x.get("op") in ("pre++", "post++")]
+    idxv = [d for d in idxv if d and d.startswith("l") and d not in (posv,)]
+
+    def arg_of(node):
+        n = strip_all_casts(node)
+        if n.get("k") == "ref" and n.get("dk") == "param":
+            return strip_all_casts(bind[n["decl"]])
+        return None
+
+    def is_last_pred(e):
+        """e (over the caller's values) is `position + chunk == total payload length`."""
+        e = strip(e)
+        if e.get("k") == "bin" and e.get("op") == "==":
+            for x, y in ((e["l"], e["r"]), (e["r"], e["l"])):
+                x, y = strip_all_casts(x), strip_all_casts(y)
+                if x.get("k") == "bin" and x.get("op") == "+" and {strip_all_casts(x["l"]).get("decl"), strip_all_casts(x["r"]).get("decl")} == {posv, chunk} and \
+                        PKT + "::getPayloadLength" in called_names(y):
+                    return True
+        return False
+
     ps = paths.enumerate_paths(f)
     seen = set()
     for p in ps:
@@ -313,26 +351,39 @@ def rule_flag_table(res, rid, m):
         if r is None:
             continue
         v = p.value_of(r["e"], before=r["id"])
-        val = const_value(v)
-        name = en.get(val)
-        seg = None
-        first = None
-        last = None
+        name = en.get(const_value(v))
+        seg = first = last = None
+        unknown = []
         for a in p.atoms:
-            if a[0] == "truth" and a[3].get("k") == "ref" and a[3].get("decl") == pbool[0]:
-                seg = a[2]
+            if a[0] == "truth":
+                arg = arg_of(a[3])
+                if arg is None:
+                    unknown.append(a[1])
+                elif arg.get("decl") == fit:
+                    seg = a[2]
+                elif is_last_pred(facts.expand(pp, arg)):
+                    last = a[2]
+                else:
+                    unknown.append("%s := %s" % (a[1], canon(arg)))
             elif a[0] == "cmp" and a[2] in ("==", "!="):
                 l, rr = strip_all_casts(a[4]), strip_all_casts(a[5])
+                done = False
                 for x, y in ((l, rr), (rr, l)):
-                    if x.get("k") == "ref" and x.get("dk") == "param" and const_value(y) == 0 and x["t"].get("k") == "int":
+                    ax = arg_of(x)
+                    if ax is not None and const_value(y) == 0 and ax.get("decl") in idxv:
                         first = (a[2] == "==")
-                        m.flag_index_param = x["decl"]
-                    if x.get("k") == "bin" and x.get("op") == "+" and y.get("k") == "ref" and y.get("dk") == "param":
-                        ops = [strip_all_casts(x["l"]), strip_all_casts(x["r"])]
-                        if all(o.get("k") == "ref" and o.get("dk") == "param" for o in ops):
+                        done = True
+                    if x.get("k") == "bin" and x.get("op") == "+":
+                        ops = [arg_of(x["l"]), arg_of(x["r"])]
+                        ay = arg_of(y)
+                        if all(o is not None for o in ops) and ay is not None and {o.get("decl") for o in ops} == {posv, chunk} and \
+                                PKT + "::getPayloadLength" in called_names(ay):
                             last = (a[2] == "==")
-                            m.flag_sum_params = sorted(o["decl"] for o in ops)
-                            m.flag_total_param = y["decl"]
+                            done = True
+                if not done:
+                    unknown.append("%s %s %s" % (a[1], a[2], a[3]))
+            else:
+                unknown.append(str(a[1]))
         if seg is False:
             want = "unsegmented"
         elif seg is True and first is True:
@@ -345,26 +396,17 @@ def rule_flag_table(res, rid, m):
             want = None
         key = "flag:%s/%s/%s" % (seg, first, last)
         seen.add(want)
+        if unknown and want is None:
+            res.bad(rid, "flag:predicate:%s" % unknown[0][:60], r.get("loc"),
+                    "the segment flag %s is decided by `%s`, which is none of the protocol's predicates (segmented; segment index == 0; position + chunk == "
+                    "total payload length)" % (name, unknown[0]))
+            continue
         res.check(name == want and want is not None, rid, key, r.get("loc"),
                   "segmented=%s, first index=%s, position+chunk==total=%s -> %s" % (seg, first, last, name),
                   "segment flag for (segmented=%s, index==0: %s, position+chunk==total: %s) is %s, protocol says %s" % (seg, first, last, name, want))
-    if seen != {"unsegmented", "firstSegment", "lastSegment", "intermediarySegment"}:
-        res.bad(rid, "flag:coverage", f.loc, "the segment-flag builder has no path for %s" %
-                sorted({"unsegmented", "firstSegment", "lastSegment", "intermediarySegment"} - seen))
-    # call-site binding in the segmentation loop
-    pp = m.putPacket
-    cs = [c for c in pp.calls() if m.calls_fn(c, f)]
-    if len(cs) != 1:
-        raise Broken("putPacket: expected one call of the flag builder")
-    c = cs[0]
-    idx = {p["decl"]: i for i, p in enumerate(f.params)}
-    total = c["args"][idx[getattr(m, "flag_total_param", f.params[-2]["decl"])]] if hasattr(m, "flag_total_param") else None
-    ok = total is not None and PKT + "::getPayloadLength" in called_names(total)
-    res.check(ok, rid, "flag:call-total", c.get("loc"), "the total compared against is the packet's payload length",
-              "flag builder is not given the packet's payload length as the total")
-    if hasattr(m, "flag_sum_params"):
-        sum_args = [strip_all_casts(c["args"][idx[d]]) for d in m.flag_sum_params]
-        m.flag_sum_args = sum_args
+    missing = {"unsegmented", "firstSegment", "lastSegment", "intermediarySegment"} - seen
+    if missing:
+        res.bad(rid, "flag:coverage", f.loc, "the segment-flag builder has no path deciding %s by the protocol's predicates" % sorted(missing))
 
 
 def rule_type_change_rebuilds_template(res, rid, m):
